@@ -257,3 +257,265 @@ wharness! {
         std::mem::forget((index, first));
     }
 }
+
+// ---- the real EntryStore::finalize with sequential stand-ins for the two rayon calls ------------
+// @h c15_finalize_keys | EntryStore::{add_entry,finalize}: the real control flow (assignment, sort, re-assignment, sortedness loop with its re-sort and re-assignment, Schema::process of every entry after the last pass) | two (thorough: three) entries (real cells and Values) with symbolic distinct sort keys, each holding a reference to entry 0 | every handle returned by add_entry reports the rank of its entry's key; when the columns are sized (Schema::process), every entry's own position and the reference it holds already are the final ones | 2 entries quick, 3 thorough (c15t_finalize_keys3); S-idx (set_entry_idx -> sequential loop), S-sort (rayon par_quicksort -> sequential insertion sort with the same comparator), M-proc (Schema::process records what it is shown; column sizing itself: c15_ref_column), Schema::finalize -> empty layout (HashMap and every property kind: no verdict in 15 min)
+// @h c15_finalize_chain | same | three entries whose sort key is the position of their parent plus one (a chain added children first: two sort passes are needed), each referencing its parent | the sort loop ends with every cell holding the position its entry is written at, and the columns are sized from those positions | 3 entries, fixed shape
+
+use super::set_entry_idx;
+use super::super::{PropertyName, VariantName};
+
+pub(crate) fn seq_set_entry_idx<PN2, VN2, Entry>(entries: &mut [Entry])
+where
+    PN2: PropertyName,
+    VN2: VariantName,
+    Entry: FullEntryTrait<PN2, VN2> + Send,
+{
+    let mut i = 0;
+    while i < entries.len() {
+        entries[i].set_idx(EntryIdx::from(i as u32));
+        i += 1;
+    }
+}
+
+pub(crate) fn seq_quicksort<T, F>(v: &mut [T], is_less: F)
+where
+    T: Send,
+    F: Fn(&T, &T) -> bool + Sync,
+{
+    // insertion sort with the caller's comparator
+    let mut i = 1;
+    while i < v.len() {
+        let mut j = i;
+        while j > 0 && is_less(&v[j], &v[j - 1]) {
+            v.swap(j, j - 1);
+            j -= 1;
+        }
+        i += 1;
+    }
+}
+
+pub(crate) fn fixed_random_state() -> std::hash::RandomState {
+    unsafe { std::mem::transmute::<[u64; 2], std::hash::RandomState>([1, 2]) }
+}
+
+/// (own module: Kani matches a stub's generic parameters by name, and PN / VN are type aliases
+/// in the enclosing module)
+pub(crate) mod fstubs {
+    use super::super::super::{layout, schema, EntryTrait, PropertyName, Value, VariantName};
+    use crate::bases::*;
+
+    /// M-proc: what Schema::process is shown, in call order: (the entry's own position, the value of
+    /// its reference property), both read at that moment
+    pub(crate) static mut PROC: [(u32, u64); 4] = [(0, 0); 4];
+    pub(crate) static mut PROC_N: usize = 0;
+
+    pub(crate) fn mon_schema_process<PN: PropertyName, VN: VariantName>(
+        s: &mut schema::Schema<PN, VN>,
+        entry: &dyn EntryTrait<PN, VN>,
+    ) {
+        let name = s.sort_keys.as_ref().unwrap()[0];
+        let r = match entry.value(&name).as_ref() {
+            Value::UnsignedWord(w) => w.get(),
+            _ => u64::MAX,
+        };
+        unsafe {
+            assert!(PROC_N < 4, "VERIF: Schema::process called more often than there are entries");
+            PROC[PROC_N] = (entry.get_idx().get().into_u32(), r);
+            PROC_N += 1;
+        }
+    }
+
+    pub(crate) fn stub_schema_finalize<PN: PropertyName, VN: VariantName>(
+        s: schema::Schema<PN, VN>,
+    ) -> layout::Entry<PN, VN> {
+        std::mem::forget(s);
+        layout::Entry {
+            common: Vec::new().into_iter().collect(),
+            variants: Vec::new(),
+            variants_map: std::collections::HashMap::new(),
+            entry_size: 0,
+        }
+    }
+}
+use fstubs::{PROC, PROC_N};
+
+/// An entry type of the harness: real Vow cell, real Value; the comparison reads the key
+/// directly (BasicEntry::compare goes through Value::partial_cmp, whose array arms drag the value
+/// stores into every comparison: 15 min without a verdict).
+struct E3 {
+    k: Word<u64>,
+    r: Value,
+    idx: Vow<EntryIdx>,
+}
+impl EntryTrait<PN, VN> for E3 {
+    fn variant_name(&self) -> Option<MayRef<VN>> {
+        None
+    }
+    fn value<'a>(&'a self, _name: &PN) -> MayRef<'a, Value> {
+        MayRef::Borrowed(&self.r)
+    }
+    fn value_count(&self) -> PropertyCount {
+        1u8.into()
+    }
+    fn set_idx(&mut self, idx: EntryIdx) {
+        self.idx.fulfil(idx)
+    }
+    fn get_idx(&self) -> Bound<EntryIdx> {
+        self.idx.bind()
+    }
+}
+impl FullEntryTrait<PN, VN> for E3 {
+    fn compare<'i, I>(&self, _sort_keys: &'i I, other: &Self) -> std::cmp::Ordering
+    where
+        I: IntoIterator<Item = &'i PN> + Copy,
+    {
+        self.k.get().cmp(&other.k.get())
+    }
+}
+
+fn uword(h: Bound<EntryIdx>) -> Value {
+    Value::UnsignedWord(Box::new(Word::from(h)))
+}
+
+fn schema1() -> schema::Schema<PN, VN> {
+    schema::Schema {
+        common: schema::CommonProperties::new(vec![schema::Property::new_uint("r")]),
+        variants: Vec::new(),
+        sort_keys: Some(vec!["k"]),
+    }
+}
+
+/// Runs the real finalize. Symbolically Schema::process is M-proc; natively (replay, no stubs)
+/// the real process / finalize / write_data run and the bytes written are the observation:
+/// returns, per written entry in order, the reference value seen / written.
+fn run_finalize(store: EntryStore<PN, VN, E3>, n: usize, constant_native: bool) -> [u64; 3] {
+    use super::EntryStoreTrait;
+    unsafe { PROC_N = 0 };
+    let mut fin = Box::new(store).finalize();
+    let mut out = [0u64; 3];
+    if is_symbolic() {
+        assert!(unsafe { PROC_N } == n, "VERIF: Schema::process must see every entry once");
+        let mut e = 0;
+        while e < n {
+            let (own, r) = unsafe { PROC[e] };
+            assert!(own == e as u32, "VERIF: when the columns are sized an entry's position is not its final one");
+            out[e] = r;
+            e += 1;
+        }
+    } else {
+        let mut cur = std::io::Cursor::new(Vec::<u8>::new());
+        match fin.write_data(&mut cur) {
+            Ok(()) => {}
+            Err(e) => { forget(e); assert!(false, "VERIF: entry store write_data failed"); }
+        }
+        let data = cur.into_inner();
+        if constant_native {
+            // constant column: nothing but the CRC; the default is checked by the library itself
+            assert!(data.len() == 4, "VERIF: entry store data length");
+            out = [u64::MAX; 3];
+        } else {
+            assert!(data.len() == n + 4, "VERIF: entry store data length");
+            let mut e = 0;
+            while e < n {
+                out[e] = data[e] as u64;
+                e += 1;
+            }
+        }
+    }
+    std::mem::forget(fin);
+    out
+}
+
+fn finalize_keys(n: usize, canary: bool) {
+    let k: [u8; 3] = [kani::any(), kani::any(), if n == 3 { kani::any() } else { 255 }];
+    kani::assume(k[0] != k[1] && k[1] != k[2] && k[0] != k[2]);
+    let v0 = Vow::new(EntryIdx::from(0u32));
+    let b0 = v0.bind();
+    let mut store: EntryStore<PN, VN, E3> = EntryStore::new(schema1(), Some(3));
+    let h0 = store.add_entry(E3 { k: Word::from(k[0] as u64), r: uword(b0.clone()), idx: v0 });
+    let h1 = store.add_entry(E3 { k: Word::from(k[1] as u64), r: uword(b0.clone()), idx: Vow::new(EntryIdx::from(0u32)) });
+    let h2 = if n == 3 {
+        store.add_entry(E3 { k: Word::from(k[2] as u64), r: uword(b0.clone()), idx: Vow::new(EntryIdx::from(0u32)) })
+    } else {
+        Vow::new(EntryIdx::from(2u32)).bind()
+    };
+    let seen = run_finalize(store, n, true);
+    let rank = |j: usize| -> u32 {
+        let mut r = 0;
+        let mut l = 0;
+        while l < 3 {
+            if k[l] < k[j] {
+                r += 1;
+            }
+            l += 1;
+        }
+        r
+    };
+    assert!(pos(&h0) == rank(0) && pos(&h1) == rank(1) && pos(&h2) == rank(2), "VERIF: a handle returned by add_entry does not report the position its entry is written at");
+    if is_symbolic() {
+        // every entry references entry 0: what the column sizing saw is its final position
+        let mut e = 0;
+        while e < n {
+            assert!(seen[e] == rank(0) as u64, "VERIF: the columns were sized before the referenced entry had its final position");
+            e += 1;
+        }
+    }
+    kani::cover!(rank(0) == 1 && rank(1) == 0, "entry 0 moved behind entry 1");
+    if canary {
+        assert!(false, "CANARY");
+    }
+    std::mem::forget((b0, h0, h1, h2));
+}
+
+fn finalize_chain() {
+    // e0's parent is e1, e1's parent is e2, e2 is the root; key = position of the parent + 1
+    let v = [Vow::new(EntryIdx::from(0u32)), Vow::new(EntryIdx::from(0u32)), Vow::new(EntryIdx::from(0u32))];
+    let b = [v[0].bind(), v[1].bind(), v[2].bind()];
+    let key = |h: Bound<EntryIdx>| -> Word<u64> {
+        let f: Box<dyn Fn() -> u64 + Sync + Send> = Box::new(move || h.get().into_u32() as u64 + 1);
+        Word::from(f)
+    };
+    let [v0, v1, v2] = v;
+    let mut store: EntryStore<PN, VN, E3> = EntryStore::new(schema1(), Some(3));
+    let h0 = store.add_entry(E3 { k: key(b[1].clone()), r: uword(b[1].clone()), idx: v0 });
+    let h1 = store.add_entry(E3 { k: key(b[2].clone()), r: uword(b[2].clone()), idx: v1 });
+    // (no nondeterministic input: a counterexample is replayed natively by running the harness as
+    // it stands, see the runner)
+    let h2 = store.add_entry(E3 { k: Word::from(0u64), r: uword(b[2].clone()), idx: v2 });
+    let seen = run_finalize(store, 3, false);
+    // the only order consistent with the keys: root, its child, the grandchild
+    assert!(pos(&h2) == 0 && pos(&h1) == 1 && pos(&h0) == 2, "VERIF: after the sort loop a handle does not report the position its entry is written at");
+    // in that order: the root references itself (0), e1 the root (0), e0 its parent e1 (1)
+    assert!(seen[0] == 0 && seen[1] == 0 && seen[2] == 1, "VERIF: a reference property does not hold the final position of the referenced entry");
+    std::mem::forget((b, h0, h1, h2));
+}
+
+macro_rules! fharness {
+    (fn $name:ident() $body:block) => {
+        #[kani::proof]
+        #[kani::unwind(6)]
+        #[kani::stub(std::fmt::format, crate::verif_common::stub_format)]
+        #[kani::stub(std::backtrace::Backtrace::capture, crate::verif_common::stub_bt_capture)]
+        #[kani::stub(crate::verif_common::is_symbolic, crate::verif_common::is_symbolic_yes)]
+        #[kani::stub(crate::creator::directory_pack::entry_store::set_entry_idx, seq_set_entry_idx)]
+        #[kani::stub(rayon::slice::sort::par_quicksort, seq_quicksort)]
+        #[kani::stub(std::hash::RandomState::new, fixed_random_state)]
+        #[kani::stub(crate::creator::directory_pack::schema::Schema::process, fstubs::mon_schema_process)]
+        #[kani::stub(crate::creator::directory_pack::schema::Schema::finalize, fstubs::stub_schema_finalize)]
+        fn $name() $body
+    };
+}
+
+fharness! {
+    fn c15_finalize_keys() { finalize_keys(2, false) }
+}
+fharness! {
+    fn c15_canary_finalize_keys() { finalize_keys(2, true) }
+}
+fharness! {
+    fn c15t_finalize_keys3() { finalize_keys(3, false) }
+}
+fharness! {
+    fn c15_finalize_chain() { finalize_chain() }
+}
